@@ -334,15 +334,30 @@ Shown(m) == {AncAt(world, m.chain, m.nums[i]) : i \in 1..Len(m.nums)}
 PowOf(m) == IF m.pow = "world" THEN \A b \in Shown(m) : Mined(world, b) ELSE m.pow = "ok"
 RootOf(m) == IF m.root = "world" THEN \A b \in Shown(m) : Rooted(world, b) ELSE m.root = "ok"
 
+\* verify_total_difficulty between the previous proved header and the new last header: "ok" / "bad" by
+\* construction, or "world" = the transcription (module Difficulty) on the world's epochs and difficulties
+TdArgs(s, m) == <<Ep(world, s.proved), Diff(world, s.proved), Td(world, s.proved),
+                 Ep(world, m.last), Diff(world, m.last), Td(world, m.last)>>
+TdOf(s, m) ==
+    IF m.td # "world" THEN m.td = "ok"
+    ELSE \E a \in {TdArgs(s, m)} : VerifyTotalDifficulty(a[1], a[2], a[3], a[4], a[5], a[6]) = "ok"
+\* the total difficulty check is applied to this answer
+TdApplies(s, m) ==
+    /\ HasProof(s) /\ ReorgNums(s.req, m) = <<>> /\ ~s.req.fork
+    /\ ~(SampleNums(s.req, m) = <<>> /\ ContinuousWithStart(s.req, m))
+\* KF-C14-envelope seen through a message: an answer from a chain whose difficulties obey TAU lies in the tight
+\* envelope but outside the split-based estimate
+TdKnownGap(s, m) ==
+    /\ m.td = "world" /\ TdApplies(s, m) /\ ~TdOf(s, m)
+    /\ \E a \in {TdArgs(s, m)} : InTightEnvelope(a[1], a[2], a[3], a[4], a[5], a[6])
+
 Valid(s, m) ==
     /\ m.match = "ok" /\ RootOf(m) /\ PowOf(m) /\ m.cont = "ok" /\ m.mmr = "ok"
     \* total difficulty envelope: skipped only when every header from the start block on is shown
     \* and applied only when the previous proved header is on the same chain (no reorg section,
     \* not the from-genesis proof after a long fork)
-    /\ \/ m.td = "ok"
-       \/ SampleNums(s.req, m) = <<>> /\ ContinuousWithStart(s.req, m)
-       \/ ~HasProof(s)
-       \/ ReorgNums(s.req, m) # <<>> \/ s.req.fork
+    /\ \/ ~TdApplies(s, m)
+       \/ TdOf(s, m)
 
 \* the last-N headers of the new prove state; [ok, v]
 NewLastHeaders(s, m) ==
